@@ -242,7 +242,12 @@ def run_C05(w):
     n = {'quick': 120, 'search': 200}.get(w.tier, 2500)
     items = exec_sources(w.seed, n)
     fixed_exec = ["x = 1\nprint(x)\n", "def f(a, b=1, *c, d, **e):\n    return a, b, c, d, e\nprint(f(1, 2, 3, d=4, z=5))\n",
-                  "def g():\n    'doc'\n    return g.__doc__\nprint(g())\n", "import sys\nprint([i for i in range(3)])\n"]
+                  "def g():\n    'doc'\n    return g.__doc__\nprint(g())\n", "import sys\nprint([i for i in range(3)])\n",
+                  # free variables no instruction references (seeded change C05-r3): the closure tuple is positional
+                  "def f():\n    a = 'first'; b = 'second'\n    def g():\n        if 0:\n            a\n        return b\n    return g()\nprint(f())\n",
+                  "def f():\n    a = 0; b = 5\n    def g():\n        nonlocal a\n        return b\n    return g()\nprint(f())\n",
+                  "def f():\n    a = 42; b = 1\n    def g():\n        if 0:\n            a\n        return eval('a') + b\n    return g()\nprint(f())\n",
+                  "def f(p, q):\n    def g(x, y):\n        if 0:\n            h = lambda: (x, y)\n        return p, q, x\n    return g(1, 2)\nprint(f(3, 4))\n"]
     items += [('exec-fixed-%d' % i, s) for i, s in enumerate(fixed_exec)]
     import os, glob
     for f in sorted(glob.glob(os.path.join(os.path.dirname(os.path.dirname(os.path.abspath(__file__))), 'corpus', 'C05', '*.py'))):
